@@ -19,6 +19,7 @@ use rand::Rng;
 
 mod spaces;
 mod pyref;
+mod stats;
 
 static PANICS: std::sync::atomic::AtomicUsize = std::sync::atomic::AtomicUsize::new(0);
 type S = RealVectorState;
@@ -488,6 +489,7 @@ fn main() {
             match prop.as_str() { "C09" => spaces::fam_metric(&mut r, seed), "C10" => spaces::fam_interp(&mut r, seed), "C11" => spaces::fam_bounds(&mut r, seed), "C12" => spaces::fam_ctor(&mut r, seed), _ => spaces::fam_compound(&mut r, seed) }
             o.n += r.n;
         }
+        "C14" => { let mut r = spaces::Rep { n: 0 }; stats::fam_uniform(&mut r, seed); o.n += r.n; }
         "pyref" => { pyref::run(seed); std::process::exit(0); }
         "defects" => fam_defects(&mut o),
         "so2_bound_self" => {
